@@ -79,7 +79,10 @@ def r1(ctx):
                 refused = o.kind == "raise" and o.exc_class == "builtins.ValueError"
                 sent = [e for e in o.effects if e.name == "send"]
                 conn, _ = _state(o)
-                if want == "refuse":
+                # a reason that does not fit a control frame (more than 123 bytes) is refused in the same way, whatever the status
+                rl = dim_of(o.run, App("len", (Sym("reason", "bytes"),), "int"), (0, INF))
+                long_reason = rl.lo > 123
+                if want == "refuse" or long_reason:
                     good = refused and not sent and conn == TRUE and not [e for e in o.effects if e.name.startswith("ws.sock.")]
                 else:
                     good = not refused
@@ -110,6 +113,7 @@ def r2(ctx):
         bad = None
         n = 0
         silent = None
+        toolong = None
         for o in outs:
             sends = [e for e in o.effects if e.name == "send"]
             d = dim_of(o.run, Sym("status", "int"), (0, 65535))
@@ -127,6 +131,19 @@ def r2(ctx):
                     and pl.args[0].args[0] == Sym("status", "int") and r.key() == want_reason.key()
                 if not ok:
                     bad = bad or (e, o)
+                # a close frame is a control frame: at most 125 payload bytes, i.e. a reason of at most 123 bytes.  A longer reason
+                # has no RFC encoding: it must be refused before anything is written (like an out-of-range status)
+                if r is not None:
+                    from ..transfer import _b_len
+                    ln = _b_len(I, o.run, [r], {}, None)
+                    dl = dim_of(o.run, ln, (0, INF)) if not isinstance(ln, C) else None
+                    hi = ln.v if isinstance(ln, C) else dl.hi
+                    if hi > 123:
+                        toolong = toolong or (e, o, hi)
+        ctx.ob(f"{q}:close-payload:reason-{kind}:fits-a-control-frame", toolong is None, "every path that writes the close frame has bounded the reason to 123 bytes" if toolong is None else
+               f"{name}() writes a close frame whose reason is not bounded (up to {toolong[2]} bytes on this path): a reason longer than 123 bytes goes out as a control frame with an "
+               f"extended payload length, which RFC 6455 forbids (the peer must fail the connection); it has to be refused before anything is written", (toolong[0].loc if toolong else "") or ctx.index.loc(ctx.index.func(q).node),
+               {"path": path_text(toolong[1])} if toolong else None)
         ctx.ob(f"{q}:close-payload:reason-{kind}", bad is None and silent is None and n > 0,
                "big-endian 16-bit status followed by the reason" + (" as UTF-8" if kind == "str" else "") + ", opcode CLOSE" if bad is None and silent is None and n > 0 else
                (f"sends {bad[0]!r}" if bad else
